@@ -346,6 +346,23 @@ def check(prop, tier, only_obligation=None):
                                         "kind": "witness", "text": w["asserts"], "fn": w["file"], "props": w["properties"]}, None))
                 elif r_["passed"] is None and tier == "thorough":
                     undecided.append(("witness", [f"{w['file']} could not run: {r_['output'][-300:]}"]))
+    # listed findings that no contract can express (work/time): established by their real-code witness only.  The witness asserts the
+    # property and is EXPECTED to fail; it is replayed in the thorough tier, the quick tier prints the listed finding without re-running it.
+    wo_findings = []
+    for fd in kf.get("findings", []):
+        if fd.get("witness_only") and fd.get("property") == prop and only_obligation is None:
+            rec = {"id": fd["id"], "witness": fd["witness_file"], "replayed": False, "still_fails": None}
+            if tier == "thorough":
+                import witness
+                r_ = witness.run([fd["witness_file"]])[fd["witness_file"]]
+                rec.update(replayed=True, still_fails=(r_["passed"] is False) if r_["passed"] is not None else None, output=r_["output"][-1200:])
+                if r_["passed"] is None:
+                    undecided.append(("witness", [f"{fd['witness_file']} (finding {fd['id']}) could not run: {r_['output'][-300:]}"]))
+            if rec["still_fails"] is False:
+                print(f"note: known finding {fd['id']} no longer reproduces (its real-code witness passes)")
+            else:
+                kf_lines.append(f"KNOWN-FINDING: property={prop} {fd['id']}: {fd['what']}" + ("" if rec["replayed"] else " [listed; its real-code witness is replayed in the thorough tier]"))
+            wo_findings.append(rec)
     n_ob = len(obligations)
     n_dis = sum(1 for o in obligations if o["verdict"] == "discharged")
     wall = time.time() - t0
@@ -375,7 +392,7 @@ def check(prop, tier, only_obligation=None):
             "solver_time_ms": sum(r["smt_ms"] for r in results),
             "units": [r["unit"] for r in results],
             "bounded": [b for r in results for b in r.get("bounded", [])],
-            "known_findings": [fd for r in results for fd in r["findings"] if prop in fd["props"]],
+            "known_findings": [fd for r in results for fd in r["findings"] if prop in fd["props"]] + wo_findings,
             "undecided": [f"{u}: {'; '.join(rs)[:500]}" for u, rs in undecided],
             "not_covered": [n for r in results for n in r.get("not_covered", [])],
             "witness_replays": witness_runs,
